@@ -367,7 +367,8 @@ def pv_form(v):
         n = type(v).__name__
         if type(v) is int:
             return [0, int(v)]
-        if n in _WRAP_CODES and getattr(v, 'dbusSignature', None) == _WRAP_CODES[n]:
+        if n in _WRAP_CODES and type(v).__module__.endswith('marshal'):
+            # the wrapper class is identified by its NAME: which DBus type it selects is what is under test
             return [9, ord(_WRAP_CODES[n]), [0, int(v)]]
         return [0, int(v)]
     if isinstance(v, float):
@@ -376,7 +377,7 @@ def pv_form(v):
         n = type(v).__name__
         if type(v) is str:
             return [3, v.encode('utf-8')]
-        if n in _WRAP_CODES and getattr(v, 'dbusSignature', None) == _WRAP_CODES[n]:
+        if n in _WRAP_CODES and type(v).__module__.endswith('marshal'):
             return [9, ord(_WRAP_CODES[n]), [3, str(v).encode('utf-8')]]
         return [3, str(v).encode('utf-8')]
     if isinstance(v, (bytes, bytearray)):
